@@ -202,6 +202,8 @@ def check_sim_mutex(rep, u):
     from plint.wiring import init_creates
     from plint.wiring import shutdown_resets
     nrs, brs = shutdown_resets(u.fn("p_atomic_thread_shutdown"))
+    if nrs < 1:
+        raise AnalysisBroken("p_atomic_thread_shutdown: the release of the global mutex was not found")
     rep.ob("C04.3", u.fn("p_atomic_thread_shutdown"), "mutex:reset", nrs >= 1 and not brs, "thread_shutdown stores NULL into the global after releasing the mutex" if (nrs >= 1 and not brs) else
            ("line %d: %s is released and keeps pointing at the destroyed object: the next p_libsys_init finds it non-NULL, creates nothing, every p_mutex_lock on it fails "
             "silently and the simulated atomics run unserialised" % (brs[0][1], brs[0][0]) if brs else "the release of the global mutex was not found"), brs[0][1] if brs else init.loc[0])
@@ -405,6 +407,12 @@ RENAME_LOCALS = ['src/patomic-c11.c', 'src/patomic-sync.c', 'src/patomic-sim.c']
 SELFTEST = [
     dict(id="sim-shutdown-keeps-dangling-mutex", file="src/patomic-sim.c", expect="C04.3",
          old="\t\tp_mutex_free (pp_atomic_mutex);\n\t\tpp_atomic_mutex = NULL;", new="\t\tp_mutex_free (pp_atomic_mutex);"),
+    dict(id="sim-shutdown-frees-local-copy-neutral", file="src/patomic-sim.c", expect=None,
+         old="\tif (P_LIKELY (pp_atomic_mutex != NULL)) {\n\t\tp_mutex_free (pp_atomic_mutex);\n\t\tpp_atomic_mutex = NULL;\n\t}",
+         new="\tPMutex *mutex = pp_atomic_mutex;\n\n\tif (P_UNLIKELY (mutex == NULL))\n\t\treturn;\n\n\tpp_atomic_mutex = NULL;\n\tp_mutex_free (mutex);"),
+    dict(id="sim-shutdown-frees-local-copy-no-reset", file="src/patomic-sim.c", expect="C04.3",
+         old="\tif (P_LIKELY (pp_atomic_mutex != NULL)) {\n\t\tp_mutex_free (pp_atomic_mutex);\n\t\tpp_atomic_mutex = NULL;\n\t}",
+         new="\tPMutex *mutex = pp_atomic_mutex;\n\n\tif (P_UNLIKELY (mutex == NULL))\n\t\treturn;\n\n\tp_mutex_free (mutex);"),
     dict(id="sim-mutex-never-created", file="src/patomic-sim.c", expect="C04.3",
          old="\tif (P_LIKELY (pp_atomic_mutex == NULL))\n\t\tpp_atomic_mutex = p_mutex_new ();", new="\tif (P_LIKELY (pp_atomic_mutex != NULL))\n\t\tpp_atomic_mutex = p_mutex_new ();"),
     dict(id="c11-add-fetch", file="src/patomic-c11.c", expect="C04.1",
